@@ -295,16 +295,25 @@ func (g *Gen) genC16(n int) error {
 		}
 		nd := len(b.Docs)
 		var open []string
+		openFilt := map[string]bool{}
+		openEx := map[string]string{}
 		nev := 3 + g.r.Intn(maxEv)
 		for e := 0; e < nev; e++ {
 			switch g.r.Intn(10) {
 			case 0, 1, 2:
 				h := g.fresh("h")
-				g.emit("vopen %s %s %s filt=%s ex=%s", h, seg, g.pick([]string{"vecA", "vecB"}), g.pick([]string{"0", "1"}), g.randDrops(nd))
+				filt, ex := g.pick([]string{"0", "1"}), g.randDrops(nd)
+				g.emit("vopen %s %s %s filt=%s ex=%s", h, seg, g.pick([]string{"vecA", "vecB"}), filt, ex)
 				open = append(open, h)
+				openFilt[h] = filt == "1"
+				openEx[h] = ex
 			case 3, 4, 5:
 				if len(open) > 0 {
-					g.emit("vsearch %s q=%s k=%d", open[g.r.Intn(len(open))], g.randQuery(2), 1+g.r.Intn(nd+2))
+					k := g.r.Intn(len(open))
+					g.emit("vsearch %s q=%s k=%d", open[k], g.randQuery(2), 1+g.r.Intn(nd+2))
+					if openFilt[open[k]] {
+						g.emit("vsearch %s q=%s k=%d elig=%s", open[k], g.randQuery(2), 1+g.r.Intn(nd+2), g.liveSubset(nd, openEx[open[k]], 1))
+					}
 				}
 			case 6, 7:
 				if len(open) > 0 {
@@ -323,6 +332,13 @@ func (g *Gen) genC16(n int) error {
 			g.emit("vopen %s %s %s filt=0 ex=%s", h, seg, fn, g.pick([]string{"nil", "-", g.randDrops(nd)}))
 			g.emit("vsearch %s q=%s k=%d", h, g.randQuery(2), nd*3)
 			open = append(open, h)
+			// and a filtered one whose eligible documents may have been excluded by earlier callers
+			h2 := g.fresh("h")
+			ex2 := g.pick([]string{"nil", "-"})
+			g.emit("vopen %s %s %s filt=1 ex=%s", h2, seg, fn, ex2)
+			g.emit("vsearch %s q=%s k=%d elig=%s", h2, g.randQuery(2), nd*3, g.liveSubset(nd, ex2, 1))
+			g.emit("vsearch %s q=%s k=%d elig=%s", h2, g.randQuery(2), 2, g.liveSubset(nd, ex2, 1))
+			open = append(open, h2)
 		}
 		for _, h := range open {
 			g.emit("vclose %s", h)
